@@ -46,6 +46,36 @@ Theorem C13_skipping_ignores_text :
 Proof. exact skipping_ignores_text. Qed.
 Print Assumptions C13_skipping_ignores_text.
 
+(* A help text as a whole: it is embedded as an inline block of text tokens (Doc::doc).  In the short
+   form the block shows the texts before the first paragraph break and the first paragraph of the text
+   holding the break (short_texts); everything after it is skipped ... *)
+Theorem C13_short_help_text :
+  forall docgen mw ts d st,
+    skip st = 0 ->
+    fold_left (token_step docgen false mw ts) (texts d) st = short_texts docgen mw d st.
+Proof. exact short_block. Qed.
+Print Assumptions C13_short_help_text.
+
+(* ... and the end of the block switches skipping off again: the next help text starts afresh *)
+Theorem C13_short_help_text_closes :
+  forall docgen mw ts d st,
+    skip st = 0 ->
+    skip (fold_left (token_step docgen false mw ts) (CStart BInlineBlock :: texts d ++ [CEnd BInlineBlock]) st) = 0.
+Proof. exact short_block_closes. Qed.
+Print Assumptions C13_short_help_text_closes.
+
+(* REFUTED for help texts that embed a further document holding the paragraph break: the inner block's
+   end forgets the break (the counter counts only blocks opened while skipping), and the text after the
+   inner block -- part of the second paragraph, see the full form -- is shown in the short form.
+   Witness replayed on the implementation: KNOWN_FINDINGS C13-para-break-inside-embedded-doc. *)
+Theorem C13_short_nested_refuted :
+  exists d : cdoc,
+    let a := 97%N in let b := 98%N in let c := 99%N in
+    render_console false true 100%N d = Some [a; 10; b; c]%N /\
+    render_console false false 100%N d = Some [a; 10; c]%N.
+Proof. eexists. exact short_nested_witness. Qed.
+Print Assumptions C13_short_nested_refuted.
+
 (* The width clause.  FULL STATEMENT (kept visible; decided on the implementation's text by the oracle
    and the differential run): for 40 <= w every output line has at most w + 2 characters unless it is
    a code line or what follows its indentation / term is a single unbreakable word.
